@@ -481,7 +481,7 @@ func enumerate(t *testing.T, test string, nstreams int, mk func(k int) *Case) {
 func TestEnumServerSplits(t *testing.T) {
 	ns := 2
 	if hx.Thorough() {
-		ns = 10 * hx.NShards
+		ns = 6 * hx.NShards
 	}
 	enumerate(t, "server-single-split", ns, enumServerCase)
 	hx.Exhaustive(fmt.Sprintf("server: every single split point of %d request streams of <= 2000 bytes (msize 64 and 100, longer than the 8 x msize receive buffer)", ns))
@@ -490,7 +490,7 @@ func TestEnumServerSplits(t *testing.T) {
 func TestEnumClientSplits(t *testing.T) {
 	ns := 2
 	if hx.Thorough() {
-		ns = 10 * hx.NShards
+		ns = 6 * hx.NShards
 	}
 	enumerate(t, "client-single-split", ns, enumClientCase)
 	hx.Exhaustive(fmt.Sprintf("client: every single split point of %d reply streams of <= 2000 bytes (msize 64 and 100, longer than the 8 x msize receive buffer)", ns))
